@@ -38,6 +38,11 @@ func NumUnchoking() int {
 
 const reqQ = 250
 
+// maxPieces bounds the piece indices that we accept from a peer before we
+// know the torrent's metadata.  We limit the metadata to 128MB, and each
+// piece takes 20 bytes of metadata.
+const maxPieces = 128 * 1024 * 1024 / 20
+
 type Requested struct {
 	Index, Begin, Length uint32
 }
@@ -830,6 +835,9 @@ func handleMessage(peer *Peer, m protocol.Message) error {
 		if peer.Info != nil && m.Index >= uint32(numPieces(peer)) {
 			return ErrRange
 		}
+		if peer.Info == nil && m.Index >= maxPieces {
+			return ErrRange
+		}
 		if !peer.bitmap.Get(int(m.Index)) {
 			peer.bitmap.Set(int(m.Index))
 			writeEvent(peer, TorPeerHave{peer, m.Index, true})
@@ -1121,6 +1129,9 @@ func handleMessage(peer *Peer, m protocol.Message) error {
 		}
 		peer.isSeed = false
 		if peer.Info != nil && m.Index >= uint32(numPieces(peer)) {
+			return ErrRange
+		}
+		if peer.Info == nil && m.Index >= maxPieces {
 			return ErrRange
 		}
 		if peer.bitmap.Get(int(m.Index)) {
